@@ -1,5 +1,5 @@
 (* Reloc_proofs.v — C11: relocation entries round-trip with the ABI packing. *)
-From ElfioV Require Import Bytes Mem Stream SectionData SectionData_proofs Strings Elfio Table Accessors.
+From ElfioV Require Import Bytes Mem Stream SectionData SectionData_proofs Strings Elfio Table Accessors Arrange_proofs.
 From Coq Require Import ZifyBool ZifyN ZifyNat.
 Local Open Scope N_scope.
 
@@ -174,3 +174,82 @@ Section Proofs.
     rewrite <- (lenN_contents s' I'), C'. apply (lenN_concat_enc _ _ (rel_enc_len c e is_rela)).
   Qed.
 End Proofs.
+
+(* ---------- set_entry: rewriting one entry changes only that entry ---------- *)
+Lemma firstnN_app_ge {A} (a b : list A) n : lenN a <= n -> firstnN (a ++ b) n = a ++ firstnN b (n - lenN a).
+Proof.
+  revert n; induction a as [|x t IH]; intros n H; cbn [app lenN].
+  - now rewrite N.sub_0_r.
+  - rewrite lenN_cons in H. cbn [firstnN]. destruct (N.eqb_spec n 0); [lia|]. f_equal. rewrite IH by lia. f_equal. f_equal. lia.
+Qed.
+
+Lemma firstnN_overlay (d bs : bytes) off n : off + lenN bs <= n -> n <= lenN d ->
+  firstnN (overlay d off bs) n = overlay (firstnN d n) off bs.
+Proof.
+  intros H1 H2.
+  destruct (split_at d off ltac:(lia)) as (d1 & r1 & E1 & L1).
+  destruct (split_at r1 (lenN bs)) as (d2 & d3 & E2 & L2).
+  { assert (lenN d = lenN d1 + lenN r1) by (rewrite E1, lenN_app; reflexivity). lia. }
+  subst d r1.
+  rewrite (overlay_mid d1 d2 d3 bs off L1 L2).
+  rewrite !firstnN_app_ge by lia. rewrite L1, L2.
+  symmetry. apply overlay_mid; [exact L1|exact L2].
+Qed.
+
+Lemma overlay_concat_enc {E} (enc : E -> bytes) esz (enc_len : forall x, lenN (enc x) = esz) es j x y :
+  nth_optN es j = Some x -> overlay (concat (map enc es)) (j * esz) (enc y) = concat (map enc (updN es j y)).
+Proof.
+  intros H. destruct (updN_split es j x y H) as (l1 & l2 & -> & Hl & ->).
+  rewrite !map_app, !concat_app. cbn [map concat]. apply overlay_mid.
+  - rewrite (lenN_concat_enc enc esz enc_len). now rewrite Hl.
+  - now rewrite !enc_len.
+Qed.
+
+Lemma Inv_with_data_same_size s b' : Inv s -> (exists b, s_data s = Some b /\ lenN b' = lenN b) ->
+  Inv (with_data s (Some b') (s_data_size s)).
+Proof.
+  intros (H1 & H2 & H3) (b & Hb & HL). unfold Inv. cbn. rewrite Hb in H3. repeat split; try assumption; lia.
+Qed.
+
+(* rewriting entry j: the table becomes the table with entry j replaced, nothing else changes *)
+Theorem rel_set_changes_only_that_entry c e is_rela s es j r r' :
+  Inv s -> s_cls s = c ->
+  contents s = concat (map (rel_enc c e is_rela) es) ->
+  sh_type s = (if is_rela then SHT_RELA else SHT_REL) ->
+  sh_entsize s = rel_esz c is_rela -> sh_size s < size_bound c ->
+  nth_optN es j = Some r ->
+  exists b',
+    rel_set_core c e s (s_data s) j (re_offset r') (re_symbol r') (re_type r') (re_addend r') = Ok (Some b') /\
+    let s' := with_data s (Some b') (s_data_size s) in
+    Inv s' /\ contents s' = concat (map (rel_enc c e is_rela) (updN es j r')) /\ sh_size s' = sh_size s.
+Proof.
+  intros HI HK HC HT HE HB Hn.
+  pose proof (nth_optN_lt _ _ _ Hn) as Hj.
+  pose proof (lenN_contents s HI) as HL. rewrite HC, (lenN_concat_enc _ _ (rel_enc_len c e is_rela)) in HL.
+  pose proof (rel_esz_pos c is_rela) as Hp.
+  destruct (table_data_some (rel_enc c e is_rela) (rel_esz c is_rela) (rel_enc_len c e is_rela) s es j r HI HC Hn Hp) as [b Eb].
+  pose proof HI as (_ & _ & HD). rewrite Eb in HD. destruct HD as [HD1 HD2].
+  unfold rel_set_core. rewrite Eb.
+  assert (Tr : (sh_type s =? SHT_RELA) = is_rela) by (rewrite HT; destruct is_rela; reflexivity).
+  rewrite Tr. fold (rel_enc c e is_rela r'). rewrite HE.
+  assert (H64 : j * rel_esz c is_rela < 2 ^ 64).
+  { pose proof (size_bound_61 c _ HB). assert (2 ^ 61 < 2 ^ 64) by (apply N.pow_lt_mono_r; lia). nia. }
+  rewrite (wrap_small 64) by exact H64.
+  rewrite wr_some by (rewrite rel_enc_len; nia).
+  eexists. split; [reflexivity|]. cbv zeta. split; [|split; [|reflexivity]].
+  - apply Inv_with_data_same_size; [exact HI|]. exists b. split; [exact Eb|]. apply lenN_overlay. rewrite rel_enc_len. nia.
+  - unfold contents. cbn [s_data with_data sh_size].
+    rewrite firstnN_overlay by (rewrite ?rel_enc_len; nia).
+    unfold contents in HC. rewrite Eb in HC. rewrite HC.
+    now apply (overlay_concat_enc _ _ (rel_enc_len c e is_rela) es j r r').
+Qed.
+
+(* exchanging two symbol indices is an involution on every entry's symbol *)
+Lemma swap1_involutive a b x : swap1 a b (swap1 a b x) = x.
+Proof.
+  unfold swap1. destruct (N.eqb_spec x a) as [->|H1].
+  - destruct (N.eqb_spec b a) as [->|H2]; [reflexivity|]. now rewrite N.eqb_refl.
+  - destruct (N.eqb_spec x b) as [->|H2].
+    + now rewrite N.eqb_refl.
+    + destruct (N.eqb_spec x a); [contradiction|]. destruct (N.eqb_spec x b); [contradiction|reflexivity].
+Qed.
